@@ -300,7 +300,7 @@ func ReadFromSTL(i io.Reader, opts STLOptions) (o *Subtitles, err error) {
 func readNBytes(i io.Reader, c int) (o []byte, err error) {
 	o = make([]byte, c)
 	var n int
-	if n, err = i.Read(o); err != nil || n != len(o) {
+	if n, err = io.ReadFull(i, o); err != nil || n != len(o) {
 		if err != nil {
 			if err == io.EOF {
 				return
